@@ -381,7 +381,7 @@ impl Scs {
     pub fn segregating_sites(&self) -> f64 {
         let n = self.elements();
 
-        self.array.iter().take(n - 1).skip(1).sum()
+        self.array.iter().take(n.saturating_sub(1)).skip(1).sum()
     }
 }
 
